@@ -358,3 +358,18 @@ class DelItemSize(_Size):
     bad = len(l) < 2
     return dict(outcome='reproduced' if bad else 'not-reproduced',
                 detail=f'del l[0] on a list with min_size=2 and 2 items left {len(l)} items')
+
+
+# ---------------------------------------------------------------------------
+# A symbolic value that already carries a value spec is adopted WITHOUT
+# re-validation when the field's spec reports itself compatible with it (the
+# custom_apply fast path): the schema invariant therefore rests on
+# Schema.is_compatible pairing fields by key.  That function is under contract
+# in contracts/c04_value_specs.py; the same contract is an obligation here.
+
+from contracts.c04_value_specs import SchemaIsCompatible as _SchemaIsCompatible   # noqa: E402  pylint: disable=wrong-import-position
+
+
+@register
+class SchemaCompatibilityIsByKey(_SchemaIsCompatible):
+  prop = 'C03'
